@@ -163,6 +163,15 @@ class _ForcedBit:
         return self.bit
 
 
+def _clone(t):
+    """the same tableau including its scratch row (CliffordTableau.copy() starts with a clean one)"""
+    import cirq
+
+    u = cirq.CliffordTableau(t.n)
+    u._xs[:], u._zs[:], u._rs[:] = t._xs, t._zs, t._rs
+    return u
+
+
 def _all_tableaux(n):
     """every valid n-qubit tableau (destabilizers + stabilizers + signs): closure of the initial tableau under the proved update rules"""
     import cirq
@@ -232,6 +241,27 @@ def standin_tableau_measure(tier, seed):
     if tier == "quick":
         pools[2] = rng.sample(pools[2], 1500)
     pools[3] = t3
+    # histories: the same tableau OBJECT after an earlier measurement (its scratch row holds what that measurement left) and 1-3 more gates
+    for n in (1, 2, 3):
+        base = pools[n] if (tier != "quick" or n == 1) else rng.sample(pools[n], min(len(pools[n]), 400))
+        derived = []
+        for t in base:
+            for q in range(n):
+                u = _clone(t)
+                u._measure(q, _ForcedBit(rng.randrange(2)))
+                for _ in range(rng.randrange(1, 4)):
+                    r = rng.random()
+                    if n >= 2 and r < 0.4:
+                        a, b = rng.sample(range(n), 2)
+                        u.apply_cx(a, b)
+                    elif r < 0.7:
+                        u.apply_h(rng.randrange(n))
+                    elif r < 0.85:
+                        u.apply_z(rng.randrange(n), 0.5)
+                    else:
+                        u.apply_x(rng.randrange(n))
+                derived.append(u)
+        pools[n] = list(pools[n]) + derived
     for n, pool in pools.items():
         for t in pool:
             psi = _state_of(t)
@@ -241,11 +271,12 @@ def standin_tableau_measure(tier, seed):
                     Z = np.kron(Z, np.diag([1, -1]) if j == q else np.eye(2))
                 ez = float(np.real(np.vdot(psi, Z @ psi)))
                 for bit in (0, 1):
-                    u = t.copy()
+                    u = _clone(t)
                     prng = _ForcedBit(bit)
                     out = u._measure(q, prng)
                     cases += 1
-                    args = dict(n=n, xs=t.xs.astype(int).tolist(), zs=t.zs.astype(int).tolist(), rs=t.rs.astype(int).tolist(), qubit=q, forced_bit=bit)
+                    args = dict(n=n, xs=t._xs.astype(int).tolist(), zs=t._zs.astype(int).tolist(), rs=t._rs.astype(int).tolist(), qubit=q, forced_bit=bit,
+                                note="rows: n destabilizers, n stabilizers, then the scratch row as an earlier measurement left it")
                     p_out = (1 + (1 - 2 * out) * ez) / 2
                     why = None
                     if p_out < 1e-9:
@@ -267,7 +298,7 @@ def standin_tableau_measure(tier, seed):
                         fails.append(dict(args=args, failed="tableau-measure", clause=f"CliffordTableau._measure({q}): {why}"))
     nf = len(fails)
     return dict(function="cirq-core/cirq/qis/clifford_tableau.py:CliffordTableau._measure", case="tableau-measure",
-                bound=("all 24x4... valid tableaux: n=1 (%d), n=2 (%d%s), seeded n=3 (%d); each qubit, both values of the random bit"
+                bound=("all 24x4... valid tableaux: n=1 (%d), n=2 (%d%s), seeded n=3 (%d), incl. the same object after an earlier measurement + 1-3 gates; each qubit, both values of the random bit"
                        % (len(pools[1]), len(pools[2]), " sampled of 11520" if tier == "quick" else ", exhaustive", len(pools[3]))).replace("all 24x4... ", ""),
                 cases=cases, distinct=cases, failures=nf, exhaustive=(tier != "quick"), _fails=fails[:3])
 standin_tableau_measure.prop = "C13"
